@@ -818,6 +818,13 @@ func (r *Reader) FetchMessage(ctx context.Context) (Message, error) {
 	for {
 		r.mutex.Lock()
 
+		if r.closed {
+			// messages still queued when the reader was closed must not be
+			// handed out anymore.
+			r.mutex.Unlock()
+			return Message{}, io.EOF
+		}
+
 		if !r.closed && r.version == 0 {
 			r.start(r.getTopicPartitionOffset())
 		}
